@@ -521,6 +521,10 @@ def decode_value(spec):
             return np.array(spec['v'], dtype=spec['dtype'])
         if spec['t'] == 'float':
             return float(spec['v'])
+        if spec['t'] == 'npstr':         # (round 6) a numpy string scalar: compares equal to the str
+            return np.str_(spec['v'])
+        if spec['t'] == 'tuple':         # (round 6) a tuple of specs
+            return tuple(decode_value(x) for x in spec['v'])
     return spec
 
 
@@ -589,6 +593,8 @@ def convention_class(state: dict):
         'ugrid': c.ugrid.UGrid,
     }[state['conv']]
     sub = state.get('subclass')
+    if isinstance(sub, str) and sub.startswith('named='):    # (round 6) a class of the same module with the given name
+        return type(sub[len('named='):], (base,), {'__module__': base.__module__})
     if sub == 'name':        # another class of the same module
         return type('Local' + base.__name__, (base,), {'__module__': base.__module__})
     if sub == 'module':      # a class of the same name in another module
